@@ -12,6 +12,7 @@ package harness
 // stores_gen_test.go: audit, estimations.
 
 import (
+	"encoding/json"
 	"bytes"
 	"crypto/sha256"
 	"fmt"
@@ -104,6 +105,50 @@ func c20Pub(s neotest.SingleSigner) []byte {
 }
 
 // c20Fund gives GAS to the accounts in one block.
+// c20Auth are the accounts of authority of one chain.  On the one-key chain
+// the Alphabet account (2n/3+1 of n) and the committee-majority account
+// (n/2+1 of n) coincide; on a chain of c20BigCommittee keys they differ
+// (5-of-7 vs 4-of-7) and single members can sign alone.
+type c20Auth struct {
+	alpha, major neotest.Signer
+	member       neotest.Signer // one committee member's own key (nil on the one-key chain)
+	differ       bool
+}
+
+const c20BigCommittee = 7
+
+// c20Chain creates a chain with a committee of ncmt keys (<= 1: the one-key chain).
+func c20Chain(t testing.TB, ncmt int) (*Env, c20Auth) {
+	if ncmt <= 1 {
+		v := NewEnv(t)
+		return v, c20Auth{alpha: v.E.Committee, major: v.E.Committee}
+	}
+	vn := NewEnvN(t, ncmt)
+	a := c20Auth{alpha: vn.Alphabet, major: vn.Majority, differ: vn.Alphabet.ScriptHash() != vn.Majority.ScriptHash(),
+		member: neotest.NewSingleSigner(wallet.NewAccountFromPrivateKey(vn.Keys[0]))}
+	c20Fund(vn.Env, a.major, a.member)
+	return vn.Env, a
+}
+
+// c20Deploy deploys c by the validator account; on a chain where the
+// committee-majority account differs from it, that account co-signs (a
+// contract's _deploy may need the committee witness, e.g. to register a TLD).
+func c20Deploy(v *Env, a c20Auth, c *neotest.Contract, data any) {
+	if !a.differ {
+		v.E.DeployContract(v.T, c, data)
+		return
+	}
+	rawManifest, err := json.Marshal(c.Manifest)
+	require.NoError(v.T, err)
+	neb, err := c.NEF.Bytes()
+	require.NoError(v.T, err)
+	tx := v.E.NewUnsignedTx(v.T, v.E.NativeHash(v.T, nativenames.Management), "deploy", neb, rawManifest, data)
+	tx = v.E.SignTx(v.T, tx, 500_0000_0000, v.E.Validator, a.major)
+	v.E.AddNewBlock(v.T, tx)
+	v.E.CheckHalt(v.T, tx.Hash())
+	require.NotNil(v.T, v.BC.GetContractState(c.Hash), "deployed contract has another hash")
+}
+
 func c20Fund(v *Env, accs ...neotest.Signer) {
 	gas := v.E.NativeHash(v.T, nativenames.Gas)
 	var txs []*transaction.Transaction
@@ -540,13 +585,19 @@ func TestC20(t *testing.T) {
 // 1. reputation
 
 type c20RepOp struct {
-	Alpha bool
+	Alpha bool // the Alphabet account is among the signers
 	E     *big.Int
 	P, V  []byte
+	// Who refines the signer set: "" = the Alphabet account alone (Alpha) or the
+	// stranger alone (!Alpha); "alpha+stranger"; "major" (committee-majority
+	// account alone); "member" (one committee member's own key alone);
+	// "major+member"; "peer" (the key named as peerID alone).
+	Who string
 }
 
 type c20RepHistory struct {
 	Name   string
+	NCmt   int // committee size of the chain (0/1: one key)
 	Epochs []*big.Int
 	Peers  [][]byte
 	Ops    []c20RepOp
@@ -560,6 +611,7 @@ var (
 	c20Peer1X  = append([]byte{1}, c20PeerX...)                 // epoch 1 ++ [1]++x == epoch 257 ++ x
 	c20PeerXe  = append(append([]byte{}, c20PeerX...), 0xAA)    // x is a proper prefix
 	c20PeerXee = append(append([]byte{}, c20PeerXe...), 0xBB)
+	c20PeerKey  = c20Pub(c20Signer("peerkey", 0)) // a genuine public key: its owner may sign alone
 	c20PeerLong = c20Bytes("peerLong", 62) // 'r' + epoch(>=1) + 62 + cnt > 64
 	c20Peer62   = c20Bytes("peer62", 61)   // 'r' + [1] + 61 + [cnt] = 64: fits for a one-byte epoch only
 )
@@ -578,17 +630,18 @@ type c20RepMon struct {
 }
 
 func (o c20RepOp) String() string {
-	return fmt.Sprintf("reputation.put(alpha=%v, epoch=%s, peer=%s, value=%s)", o.Alpha, o.E, Hex(o.P), Hex(o.V))
+	return fmt.Sprintf("reputation.put(alpha=%v, signers=%q, epoch=%s, peer=%s, value=%s)", o.Alpha, o.Who, o.E, Hex(o.P), Hex(o.V))
 }
 
 func c20RunRep(run *c20Run, p *c20Pool, hs c20RepHistory, corpus bool) string {
 	t := run.t
-	v := NewEnv(t)
+	v, auth := c20Chain(t, hs.NCmt)
 	c := v.Compile("reputation")
 	v.E.DeployContract(t, c, []any{false})
 	require.Empty(t, v.StorageDump(c.Hash), "reputation: storage not empty after deploy")
 	stranger := c20Signer("stranger", 0)
-	c20Fund(v, stranger)
+	peerKey := c20Signer("peerkey", 0) // a genuine key usable as peer id
+	c20Fund(v, stranger, peerKey)
 
 	h := run.newHist("rep", hs.Name, corpus)
 	m := &c20RepMon{h: h, cnt: map[string]int{}}
@@ -597,9 +650,34 @@ func c20RunRep(run *c20Run, p *c20Pool, hs c20RepHistory, corpus bool) string {
 	}
 	var steps []string
 	for _, op := range hs.Ops {
-		sg := []neotest.Signer{v.E.Committee}
-		if !op.Alpha {
+		// only the Alphabet account (2n/3+1 of the committee) may put, whoever
+		// else signs and whatever key the peer id names
+		var sg []neotest.Signer
+		switch op.Who {
+		case "alpha+stranger":
+			sg = []neotest.Signer{stranger, auth.alpha}
+		case "major":
+			sg = []neotest.Signer{auth.major}
+		case "member":
+			sg = []neotest.Signer{auth.member}
+		case "major+member":
+			sg = []neotest.Signer{auth.major, auth.member}
+		case "peer":
+			sg = []neotest.Signer{peerKey}
+		default:
+			sg = []neotest.Signer{auth.alpha}
+			if !op.Alpha {
+				sg = []neotest.Signer{stranger}
+			}
+		}
+		if (op.Who == "member" || op.Who == "major+member") && auth.member == nil {
 			sg = []neotest.Signer{stranger}
+		}
+		op.Alpha = false // from here on: the Alphabet account witnesses the transaction
+		for _, x := range sg {
+			if x.ScriptHash() == auth.alpha.ScriptHash() {
+				op.Alpha = true
+			}
 		}
 		r := v.Invoke(sg, c.Hash, "put", op.E, op.P, op.V)
 		h.op("put", op.String(), r.Halt, true)
@@ -766,6 +844,7 @@ func c20RepCorpus() []c20RepHistory {
 	E := c20Big
 	put := func(e int64, p []byte, v ...byte) c20RepOp { return c20RepOp{Alpha: true, E: E(e), P: p, V: v} }
 	bad := func(e int64, p []byte, v ...byte) c20RepOp { return c20RepOp{Alpha: false, E: E(e), P: p, V: v} }
+	who := func(w string, e int64, p []byte, v ...byte) c20RepOp { return c20RepOp{Who: w, E: E(e), P: p, V: v} }
 	return []c20RepHistory{
 		{Name: "F2-listByEpoch-1-257-0", Epochs: []*big.Int{E(1), E(257), E(0), E(256)}, Peers: [][]byte{c20PeerA, c20PeerB},
 			Ops: []c20RepOp{put(1, c20PeerA, 0x11), put(257, c20PeerB, 0x22), put(0, c20PeerB, 0x33)}},
@@ -780,8 +859,15 @@ func c20RepCorpus() []c20RepHistory {
 			Ops: []c20RepOp{put(1, c20PeerLong, 1), put(1, c20Peer62, 2), put(256, c20Peer62, 3), put(0, c20Peer62, 4), put(0, c20PeerLong, 5), put(0, c20PeerLong, 6)}},
 		{Name: "stranger-only", Epochs: []*big.Int{E(0), E(1)}, Peers: [][]byte{c20PeerA},
 			Ops: []c20RepOp{bad(1, c20PeerA, 1), bad(0, c20PeerA, 1)}},
+		// who may put: only the Alphabet account, whoever else signs and whichever key the peer id names
+		{Name: "signer-sets", Epochs: []*big.Int{E(1), E(0)}, Peers: [][]byte{c20PeerKey, c20PeerA},
+			Ops: []c20RepOp{who("peer", 1, c20PeerKey, 1), put(1, c20PeerKey, 2), who("peer", 1, c20PeerKey, 3), who("alpha+stranger", 1, c20PeerA, 4),
+				who("major", 1, c20PeerA, 5), bad(1, c20PeerKey, 6)}},
+		{Name: "signer-sets-7", NCmt: c20BigCommittee, Epochs: []*big.Int{E(1), E(0)}, Peers: [][]byte{c20PeerKey, c20PeerA},
+			Ops: []c20RepOp{who("major", 1, c20PeerA, 1), who("member", 1, c20PeerA, 2), who("major+member", 1, c20PeerA, 3), put(1, c20PeerA, 4),
+				who("peer", 1, c20PeerKey, 5), who("major", 1, c20PeerA, 6), who("alpha+stranger", 1, c20PeerKey, 7), bad(1, c20PeerA, 8)}},
 		{Name: "all-epochs", Epochs: []*big.Int{E(65535), E(65536), c20Two31, E(-1), E(255)}, Peers: [][]byte{c20PeerA, c20PeerX},
-			Ops: []c20RepOp{put(65535, c20PeerA, 1), put(65536, c20PeerA, 2), {true, c20Two31, c20PeerX, []byte{3}}, put(-1, c20PeerA, 4),
+			Ops: []c20RepOp{put(65535, c20PeerA, 1), put(65536, c20PeerA, 2), {Alpha: true, E: c20Two31, P: c20PeerX, V: []byte{3}}, put(-1, c20PeerA, 4),
 				put(255, c20PeerA, 5), put(255, c20PeerA, 6), put(-1, c20PeerX, 7)}},
 		{Name: "256-65792", Epochs: []*big.Int{E(256), E(65792), E(0), E(65536)}, Peers: [][]byte{c20PeerA, c20PeerB},
 			Ops: []c20RepOp{put(65792, c20PeerA, 1), put(256, c20PeerB, 2), put(65536, c20PeerA, 3), put(256, c20PeerA, 4)}},
@@ -791,7 +877,10 @@ func c20RepCorpus() []c20RepHistory {
 func c20RepRandom(r *rand.Rand, i int) c20RepHistory {
 	hs := c20RepHistory{Name: fmt.Sprintf("random-%d", i)}
 	hs.Epochs = c20SubPool(r, 4+r.Intn(2))
-	all := [][]byte{c20PeerA, c20PeerB, c20PeerX, c20Peer1X, c20PeerXe, {}, c20Peer62}
+	all := [][]byte{c20PeerA, c20PeerB, c20PeerX, c20Peer1X, c20PeerXe, {}, c20Peer62, c20PeerKey}
+	if i%12 == 5 {
+		hs.NCmt = c20BigCommittee
+	}
 	r.Shuffle(len(all), func(a, b int) { all[a], all[b] = all[b], all[a] })
 	hs.Peers = all[:2+r.Intn(2)]
 	n := 6 + r.Intn(7)
@@ -807,6 +896,13 @@ func c20RepRandom(r *rand.Rand, i int) c20RepHistory {
 		}
 		if r.Intn(25) == 0 {
 			op.P = c20PeerLong
+		}
+		if r.Intn(6) == 0 { // other signer sets
+			ws := []string{"alpha+stranger", "major", "peer"}
+			if hs.NCmt > 1 {
+				ws = append(ws, "member", "major+member", "major")
+			}
+			op.Who = ws[r.Intn(len(ws))]
 		}
 		hs.Ops = append(hs.Ops, op)
 	}
